@@ -45,7 +45,8 @@ HandleSUR(cs, r) ==
        IF r.sub = "reserve" THEN (IF DEV_ZeroCostDivides THEN NoAnswer ELSE [got |-> TRUE, price |-> <<>>, allowed |-> <<>>])
        ELSE [got |-> TRUE, price |-> <<>>, allowed |-> <<>>]
   ELSE \* "int"
-       CASE r.sub = "debit"   -> [got |-> TRUE, price |-> MMul(r.consumed, c), allowed |-> <<>>]
+       \* Unsigned32 arithmetic in the handler: outside the domain "exact price fits" the product wraps
+       CASE r.sub = "debit"   -> [got |-> TRUE, price |-> MNorm(MDivMod(MMul(r.consumed, c), P32).r), allowed |-> <<>>]
          [] r.sub = "reserve" -> [got |-> TRUE, price |-> MMul(MDiv(r.quota, c), c), allowed |-> MDiv(r.quota, c)]
          [] OTHER             -> [got |-> TRUE, price |-> <<>>, allowed |-> <<>>]
 
